@@ -37,7 +37,7 @@ class SchedError(Exception):
 
 class CT(object):
     __slots__ = ("tid", "name", "sem", "state", "pred", "deadline", "timed_out", "real", "park",
-                 "daemon", "target", "exc", "role", "__weakref__")
+                 "daemon", "target", "exc", "role", "cthread", "__weakref__")
 
     def __init__(self, tid, name, role):
         self.tid = tid
@@ -51,12 +51,18 @@ class CT(object):
         self.real = None
         self.park = None
         self.exc = None
+        self.cthread = None     # the library-visible Thread object (CThread) of a thread the library created
 
 
 class Chooser(object):
     """Schedule strategy.  All randomness comes from one PRNG."""
 
-    def __init__(self, seed=0, mode="random", p_switch=0.2, replay=None, pct_depth=3, est_len=2000):
+    LAST = None     # the most recently created strategy (lets a search read `hot_count` after an in-process run)
+
+    def __init__(self, seed=0, mode="random", p_switch=0.2, replay=None, pct_depth=3, est_len=2000, hold_at=None):
+        Chooser.LAST = self
+        self.hold_at = tuple(hold_at) if hold_at else None     # "holdat" mode: (tid, k) = suspend thread tid at its k-th hot yield
+        self.hot_count = {}
         self.rng = random.Random(seed)
         self.mode = mode
         self.p_switch = p_switch
@@ -68,6 +74,13 @@ class Chooser(object):
         self.change_points = sorted(self.rng.randrange(1, est_len) for _ in range(pct_depth)) if mode == "pct" else []
         self.nchoices = 0
         self.after_op = {}
+        # "hold" mode: a thread is suspended at a (mostly boundary) yield point and stays suspended until every other thread
+        # has run into a blocking operation - the shape of a race window: A pauses inside a few-line window, everybody else
+        # runs to quiescence, A resumes.  At most `holds_left` suspensions per run, each taken with probability `hold_p`.
+        self.sched = None       # set by Sched: lets the strategy see which controlled locks the current thread holds
+        self.held = []
+        self.holds_left = self.rng.choice([1, 2, 3]) if mode == "hold" else 0
+        self.hold_p = self.rng.choice([0.3, 0.1, 0.03, 0.01, 0.003]) if mode == "hold" else 0.0
 
     def choose(self, cur_tid, runnable, kind):
         """runnable: sorted list of tids (non-empty).  Returns chosen tid."""
@@ -93,6 +106,45 @@ class Chooser(object):
                 if cur_tid in runnable:
                     self.prio[cur_tid] = self.rng.random() * 0.5
             c = max(runnable, key=lambda t: self.prio[t])
+        elif self.mode == "holdat":
+            # systematic placement of ONE suspension: thread `tid` is suspended at its k-th hot yield (boundary operation, first
+            # line after one, or any line executed while holding a controlled lock) until every other thread is blocked
+            hot = kind != "line" or self.after_op.get(cur_tid, False)
+            self.after_op[cur_tid] = (kind != "line")
+            if not hot and self.sched is not None and self.sched.held.get(cur_tid):
+                hot = True
+            if hot and cur_tid in runnable:
+                n = self.hot_count.get(cur_tid, 0) + 1
+                self.hot_count[cur_tid] = n
+                if self.hold_at == (cur_tid, n) and len(runnable) > 1:
+                    self.held.append(cur_tid)
+            cands = [t for t in runnable if t not in self.held]
+            if not cands:
+                c = [h for h in self.held if h in runnable][0]
+                self.held.remove(c)
+            elif cur_tid in cands and self.rng.random() >= self.p_switch:
+                c = cur_tid
+            else:
+                c = cands[self.rng.randrange(len(cands))]
+        elif self.mode == "hold":
+            hot = kind != "line" or self.after_op.get(cur_tid, False)
+            self.after_op[cur_tid] = (kind != "line")
+            if not hot and self.sched is not None and self.sched.held.get(cur_tid):
+                hot = True      # inside a critical section: where a narrowed or dropped lock elsewhere would bite
+            cands = [t for t in runnable if t not in self.held]
+            if not cands:
+                c = [h for h in self.held if h in runnable][0]
+                self.held.remove(c)
+            else:
+                if cur_tid in cands and len(cands) > 1 and self.holds_left > 0 and \
+                        self.rng.random() < (self.hold_p if hot else self.hold_p * 0.15):
+                    self.held.append(cur_tid)
+                    self.holds_left -= 1
+                    cands.remove(cur_tid)
+                if cur_tid in cands and self.rng.random() >= self.p_switch:
+                    c = cur_tid
+                else:
+                    c = cands[self.rng.randrange(len(cands))]
         elif self.mode == "bnd":
             # pre-emptions concentrated around synchronisation / boundary operations: at such a yield, and at the first source
             # line executed after it, switch with probability p_switch; elsewhere almost never
@@ -117,6 +169,7 @@ class Chooser(object):
 class Sched(object):
     def __init__(self, chooser=None, trace_lines=True, max_yields=200000, impl_dir=None, line_filter=None):
         self.chooser = chooser or Chooser()
+        self.chooser.sched = self
         self.trace_lines = trace_lines
         self.max_yields = max_yields
         self.threads = []
@@ -257,6 +310,12 @@ class Sched(object):
                 if d > self.now:
                     self.now = d
                 self.log.append((-1, "idle_jump", self.now))
+                self.njumps = getattr(self, "njumps", 0) + 1
+                if self.njumps > 4000:
+                    # virtual time keeps jumping from one time-out to the next without the scenario ending: a thread is
+                    # re-arming a timed wait for ever (the idle-jump analogue of the yield limit)
+                    self._end("limit")
+                    return None
                 for t in timed:
                     if t.deadline <= self.now:
                         t.state = "ready"
@@ -538,6 +597,25 @@ class CLock(object):
     def __exit__(self, *a):
         self.release()
 
+    # Condition support (a Condition over a plain Lock): the release inside wait() and the re-acquisition after it are logged
+    # like any other release / acquisition of the lock, so lock-section projections see two sections around the wait
+    def _is_owned(self):
+        return self.owner is not None and self.owner is self._s.cur
+
+    def _release_save(self):
+        self.release()
+        return None
+
+    def _acquire_restore(self, st):
+        s = self._s
+        me = s.cur
+        if self.owner is not None:
+            s.block(lambda: self.owner is None, None, ("lock", s.name_of(self, "L")))
+        self.owner = me
+        if self.preempt and not s.aborting:
+            s.ev("acq", s.name_of(self, "L"))
+            _note_acquire(s, self)
+
 
 class CRLock(object):
     preempt = True
@@ -665,16 +743,23 @@ class CCondition(object):
             raise RuntimeError("cannot wait on un-acquired lock")
         w = _Waiter()
         self._waiters.append(w)
-        st = self._lock._release_save()
         deadline = None
         if timeout is not None and timeout < UNTIMED:
             deadline = s.now + max(timeout, 0)
+        if not self.quiet:
+            # a library-level condition (not a stdlib Future's): waiting and notifying are logged protocol events; the release of
+            # the lock and the parking are ONE step (that atomicity is what a condition variable is for)
+            s.ev("cwait", s.name_of(self, "C"), timeout if deadline is not None else None)
+        st = self._lock._release_save()
+        ok = False
         try:
             ok = s.block(lambda: w.flag, deadline, ("cond", s.name_of(self, "C"), timeout if deadline is not None else None))
         finally:
             if not s.aborting:
                 self._waiters = [x for x in self._waiters if x is not w]
                 self._lock._acquire_restore(st)
+                if not self.quiet:
+                    s.ev("cwoke", s.name_of(self, "C"), bool(ok))
         return ok
 
     def wait_for(self, predicate, timeout=None):
@@ -697,6 +782,8 @@ class CCondition(object):
     def notify(self, n=1):
         if not self._lock._is_owned():
             raise RuntimeError("cannot notify on un-acquired lock")
+        if not self.quiet and self._s is not None and not self._s.aborting:
+            self._s.ev("cnotify", self._s.name_of(self, "C"), min(n, len(self._waiters)))
         for w in self._waiters[:n]:
             w.flag = True
         del self._waiters[:n]
@@ -791,6 +878,27 @@ class QuietEvent(CEvent):
         return self._flag
 
 
+class _ForeignThread(object):
+    """what `current_thread()` returns on a controlled thread the library did not create (clients, pool workers)"""
+
+    def __init__(self, ct):
+        self.name = ct.name or "ds-%d" % ct.tid
+        self.daemon = True
+        self._ct = ct
+
+
+def current_thread():
+    """threading.current_thread() for library code: the CThread object when running on a thread the library started"""
+    s = ACTIVE
+    if s is None or s.cur is None:
+        import threading as _th
+        return _th.current_thread()
+    ct = s.cur
+    if ct.cthread is None:
+        ct.cthread = _ForeignThread(ct)
+    return ct.cthread
+
+
 class CThread(object):
     """threading.Thread replacement for threads the library creates."""
 
@@ -809,6 +917,7 @@ class CThread(object):
             raise RuntimeError("threads can only be started once")
         s.yield_point("tstart")
         self._ct = s.spawn(self._run, name=self.name, role="lib")
+        self._ct.cthread = self
         s.ev("spawn", self._ct.tid, self.name)
 
     def _run(self):
